@@ -1,5 +1,7 @@
 #![allow(dead_code)]
 mod util;
+mod c07;
+mod c08;
 mod c14;
 mod c13;
 mod c15;
@@ -32,6 +34,8 @@ fn main() {
         "c15" => c15::main(&a),
         "c13" => c13::main(&a),
         "c14" => c14::main(&a),
+        "c08" => c08::main(&a),
+        "c07" => c07::main(&a),
         other => {
             eprintln!("unknown driver {other}");
             std::process::exit(2);
